@@ -93,11 +93,16 @@ def memRefToks (r : MemRef) : List Token := [identTok r.name, .lBracket, .intege
 /-- the marker the harness substitutes for the `Debug` text of a placeholder -/
 def phName : List Char := ['P', 'H']
 
+/-- a name written raw (`{name}`) that did not necessarily come from an `Identifier` token: qubit variables
+may have been written `%name` (a `Variable` token, whose name may be a reserved word such as `%NOT`), and are
+printed without the `%`: the lexer then classifies the word again (`keyword_or_identifier`) -/
+def nameTok (s : String) : Token := keywordOrIdentifier s.toList
+
 /-- `Qubit` (qubit.rs:40) in debug mode -/
 def qubitToks : Qubit → List Token
   | .fixed n => [.integer n]
   | .placeholder _ => [.identifier phName]
-  | .variable s => [identTok s]
+  | .variable s => [nameTok s]
 
 def qubitErr : Qubit → Option PrintError
   | .placeholder _ => some .unresolvedQubitPlaceholder
@@ -283,9 +288,20 @@ def splitLinesAux : List Token → List Token → List (List Token)
 
 def splitLines (ts : List Token) : List (List Token) := splitLinesAux [] ts
 
-/-- `for line in lines.split('\n') { writeln!(writer, "{INDENT}{line}") }` (circuit.rs:69) -/
+/-- a quoted string whose text is split at its own `'\n'` characters and re-indented: every newline INSIDE
+the string is followed by four more spaces -/
+def reindentChars : List Char → List Char
+  | [] => []
+  | c :: cs => if c = '\n' then '\n' :: ' ' :: ' ' :: ' ' :: ' ' :: reindentChars cs else c :: reindentChars cs
+
+def reindentTok : Token → Token
+  | .string s => .string (reindentChars s)
+  | t => t
+
+/-- `for line in lines.split('\n') { writeln!(writer, "{INDENT}{line}") }` (circuit.rs:69): the split is on
+the TEXT, so it also cuts through string literals that contain a newline -/
 def reindent (ts : List Token) : List Token :=
-  (splitLines ts).flatMap fun line => .indentation :: (line ++ [.newLine])
+  (splitLines (ts.map reindentTok)).flatMap fun line => .indentation :: (line ++ [.newLine])
 
 def measureNameToks : Option String → List Token
   | some n => [.bang, identTok n]
@@ -308,7 +324,7 @@ def toks (F : NumFmt) : Instruction → List Token
       invocationToks F c.waveform ++ memRefToks c.memoryReference
   | .circuitDefinition name ps qvs body =>
     -- circuit.rs:43
-    cmd .defCircuit :: identTok name :: (varParamsToks ps ++ qvs.map identTok ++
+    cmd .defCircuit :: identTok name :: (varParamsToks ps ++ qvs.map nameTok ++
       .colon :: .newLine :: circuitBodyToks F body)
   | .convert c => cmd .convert :: (memRefToks c.destination ++ memRefToks c.source)
   | .comparison c =>
